@@ -486,6 +486,8 @@ class Evaluator:
             st = self.expr(e.slice.step, env, f, depth) if e.slice.step is not None else None
             if isinstance(base, (str, list, tuple)) and all(x is None or isinstance(x, int) for x in (lo, hi, st)):
                 return base[lo:hi:st]
+            if base is None or isinstance(base, (bool, int, float)):
+                raise Raised("TypeError")        # None / a number is not subscriptable
             raise AnalysisError("slice of an abstract value not supported (%s)" % f.loc(e))
         if isinstance(e, ast.Subscript):
             base = self.expr(e.value, env, f, depth)
